@@ -37,7 +37,7 @@ CLASSES = {
   ('K06-inc16-array', r'^expr/inc(use)?/.*w2|^deep/idx/(inc|cass)/warr', "++/-- on an element of a 16-bit array updates the low byte only"),
   ('K07-deferred-postinc-index', r'^expr/incuse/Y=.*aY', "post-inc/dec of arr[Y] deferred until after Y itself was assigned: applied to the wrong element"),
   ('K08-signed-compare', r'^cond/(if|set|ifnoelse|tern|while)/(sa|ha)~|^expr/kcmp/(sa|ha)/|^deep/cmp/s_sum|^deep/idx/cmp/sarr', "signed comparison lowered to CMP/SBC + BMI/BPL: wrong when the subtraction overflows, and > / <= variants wrong at equality"),
-  ('K09-unsigned-vs-0', r'^cond/(if|set|ifnoelse|tern|while)/(va|wa|X|Y)~(0|65535|255)/|^deep/cmp/[^/@]*(<|<=|>|>=)k(0|255)@|^deep/regconst/[XY]=\d+/(<|>=)0/', "unsigned comparison against 0 or the type maximum folded with the sign flag / miscompiled (e.g. 'vc = va > 0' is always 0)"),
+  ('K09-unsigned-vs-0', r'^cond/(if|set|ifnoelse|tern|while)/(va|wa|X|Y)~(0|65535|255)/|^deep/cmp/[^/@]*(<|<=|>|>=)k(0|255)@|^deep/regconst/(X|Y|va)=\d+/(<|>=|<=|>)0/', "unsigned comparison against 0 or the type maximum folded with the sign flag / miscompiled (e.g. 'vc = va > 0' is always 0)"),
   ('K10-cmp16', r'^cond/(if|set|ifnoelse|tern|while)/(wa|wX|va|ha)~(wb|wa|va|hb|\d+|-\d+)/', "16-bit comparison (<=, > and mixed 8/16-bit operands) takes the wrong branch for some operands"),
   ('K11-postinc-in-shortcircuit', r'^cond/log[23]/.*i|^deep/kcond/\w+/[^@]*va\+\+', "post-increment inside an operand of && / || is deferred past the short-circuit decision: executed when it must not be / missed when it must"),
   ('K12-prec-eq-rel', r'^expr/prec(init)?/.*(==|!=)(vc|vb|wc)(<|>|<=|>=)|^expr/prec(init)?/.*(<|>|<=|>=)(vc|vb|wc)(==|!=)', "== / != share one precedence level with < > <= >= (C: relational binds tighter)"),
